@@ -43,7 +43,7 @@ func c15New(T time.Duration) *DialogBasedBackend {
 func TestC15(t *testing.T) {
 	V.Rule("unit, measured time: rapid state machine over pin(d, Expires in {0,1,2,2^31-1} s) / lookup / terminate / sleep / traffic on a pin table with timeout T in {30,60,120} ms; a lookup whose latest possible age is below the lifetime max(T, Expires) must find the pinned backend, one whose earliest possible age is at or beyond it must not, anything between is a don't-care; after terminate: not found. Boundedness scenarios: expired keys plus one huge-Expires pin, then steady traffic at measured gaps <= T/4 for 3T: every key expired more than 1.5T ago must be gone from the table and the table size stays bounded. non-trivial = history with a probe on each side of an expiry, or a termination followed by a probe, or a huge-Expires pin followed by >= 2T of traffic; distinct by history text. lab / bin: the same on a real proxy with a 1 s dialog timeout (termination histories of BYE / NOTIFY / in-dialog probes; a BYE answered with each of 45 notable final statuses - thorough: every status 200-699 - must dissolve the pin; expiry probes with measured ages)")
 	V.Assume("time is measured around every product call; scheduling delays can only turn a judged probe into a don't-care (a boundedness scenario whose measured traffic gap exceeds T/4 is skipped and counted)")
-	V.Require("lab: the pin outlives an outage of its backend", "probe before expiry", "probe after expiry", "terminate then probe", "huge Expires pin", "boundedness scenario judged")
+	V.Require("lab: a service without dialogTimeout beside one with dialogTimeout 1", "lab: the pin outlives an outage of its backend", "probe before expiry", "probe after expiry", "terminate then probe", "huge Expires pin", "boundedness scenario judged")
 
 	rcheck(t, "lifetimes", V.N(100, 600), func(rt *rapid.T) {
 		T := time.Duration(rapid.SampledFrom([]int{30, 60, 120}).Draw(rt, "T_ms")) * time.Millisecond
@@ -229,6 +229,79 @@ func TestC15(t *testing.T) {
 	})
 
 	c15ProxyBoundedness(t)
+
+	// Two services in one configuration file: the first says dialogTimeout: 1, the
+	// second says nothing - its pins live for the default (20 min). A dialog of the
+	// second service is still pinned well after the first service's timeout.
+	if tsvc, err := newStdSvc(stdVariant{Two: true, Timeout: 1}); err != nil {
+		V.HarnessError(t, "cannot start lab instance: %v", err)
+	} else {
+		rcheck(t, "two-services-timeouts", V.N(2, 12), func(rt *rapid.T) {
+			s := tsvc
+			l := s.in.cfg.More[0].Listens[0]
+			ua := s.uas[rapid.IntRange(0, 3).Draw(rt, "ua")]
+			send := func(b []byte) error { return ua.sendUDP(l.Addr, l.UDPPort, b) }
+			id := s.nextID("c15two-")
+			mk := func(method, callID, toTag string, cseq int) []byte {
+				to := "<sip:b@nomatch.example>"
+				if toTag != "" {
+					to += ";tag=" + toTag
+				}
+				return []byte(fmt.Sprintf("%s sip:svc-b.test SIP/2.0\r\nVia: SIP/2.0/UDP %s:5060;branch=z9hG4bK%s-%d\r\nFrom: <sip:a@a.example>;tag=f\r\nTo: %s\r\nCall-ID: %s\r\nCSeq: %d %s\r\nContent-Length: 0\r\n\r\n", method, ua.ip, callID, cseq, to, callID, cseq, method))
+			}
+			one := func(wire []byte) labRx {
+				s.in.expect(wire)
+				if err := send(wire); err != nil {
+					V.HarnessError(rt, "send: %v", err)
+				}
+				rs, err := s.in.settle(send, 1)
+				if _, lost := err.(labLost); lost {
+					failf(rt, "%v", err)
+				} else if err != nil {
+					V.HarnessError(rt, "%v", err)
+				}
+				got := labMessages(rs)
+				if len(got) != 1 || got[0].ep == nil || got[0].ep.port != 5080 || (got[0].ep.ip != s.ip(37) && got[0].ep.ip != s.ip(38)) {
+					failf(rt, "a request for the second service must reach exactly one of its two backends; receptions:\n%s", labDescribe(got))
+				}
+				return got[0]
+			}
+			inv := one(mk("INVITE", id, "", 1))
+			resp := buildResponse(inv.msg, 200, "OK", "t"+id, "")
+			bep := inv.ep
+			bsend := func(b []byte) error { return bep.sendUDP(l.Addr, l.UDPPort, b) }
+			s.in.expect(resp)
+			if err := bsend(resp); err != nil {
+				V.HarnessError(rt, "backend send: %v", err)
+			}
+			if _, err := s.in.settle(bsend, 1); err != nil {
+				if _, lost := err.(labLost); lost {
+					failf(rt, "%v", err)
+				}
+				V.HarnessError(rt, "%v", err)
+			}
+			pinnedAt := time.Now()
+			time.Sleep(time.Duration(rapid.IntRange(1300, 2100).Draw(rt, "ms of silence")) * time.Millisecond)
+			// the rotation must not point at the pinned backend by itself
+			last := inv.ep
+			for i := 0; i < 3; i++ {
+				// after a dispatch to X the next unpinned one goes to the other backend; we want "next != pinned", i.e. last == pinned
+				if last.ip == bep.ip {
+					break
+				}
+				last = one(mk("OPTIONS", s.nextID("c15twof-"), "", 1)).ep
+			}
+			if last.ip != bep.ip {
+				return
+			}
+			got := one(mk(rapid.SampledFrom([]string{"INFO", "BYE", "UPDATE"}).Draw(rt, "in-dialog method"), id, "t"+id, 2))
+			V.Class("lab: a service without dialogTimeout beside one with dialogTimeout 1")
+			V.NonTrivial("two|" + id)
+			if got.ep.ip != bep.ip {
+				failf(rt, "second service of the configuration file (no dialogTimeout; the first service says dialogTimeout: 1): a dialog pinned to %s %v ago - far inside the default lifetime of 20 min - was load-balanced to %s", bep, time.Since(pinnedAt).Round(10*time.Millisecond), got.ep)
+			}
+		})
+	}
 
 	// a fault history on a service with the default dialog timeout (20 min): an
 	// outage of the pinned backend dissolves nothing
